@@ -402,7 +402,7 @@ func checkGeometry(c Case, G func(x, y float64) (float64, float64), where string
 	return nil
 }
 
-var subHelper = harness.Define("helpers", "SetLinearGradient / SetCircularGradient / SetEllipticalGradient / SetGradient with non-degenerate geometry over 1e-2..1e3, four spreads, stop lists of length 0..300 (dense at 0,1,2,57,58,59,255,256,257,300) of several colour models, every prior CSEL/NSEL reached by plain or wrapping incrementing writes, into a Renderer, an Encoder (then decoded) or a plain recorder: documented errors before any write, selectors restored, registers named by the written gradient value hold stops and matrix, geometry read back from registers and from the rendered paint, stops/spread/shape rendered as requested; non-trivial = geometry not axis-aligned at the origin, or an error path, or selectors reached by increments", checkHelper)
+var subHelper = harness.Define("helpers", "SetLinearGradient / SetCircularGradient / SetEllipticalGradient / SetGradient with non-degenerate geometry over 1e-2..1e3 (also exactly axis-aligned vectors in either order and sign), four spreads, stop lists of length 0..300 (dense at 0,1,2,57,58,59,255,256,257,300) of several colour models, every prior CSEL/NSEL reached by plain or wrapping incrementing writes, into a Renderer, an Encoder (then decoded) or a plain recorder: documented errors before any write, selectors restored, registers named by the written gradient value hold stops and matrix, geometry read back from registers and from the rendered paint, stops/spread/shape rendered as requested; non-trivial = geometry not axis-aligned at the origin, or an error path, or selectors reached by increments", checkHelper)
 
 func genStops(t *rapid.T, n int, valid bool) []StopSpec {
 	var offs []float32
@@ -442,6 +442,21 @@ func mag(t *rapid.T) float64 {
 	return math.Pow(10, rapid.Float64Range(-2, 3).Draw(t, "mag"))
 }
 
+// axisAligned turns the vector exactly vertical (q=0) or horizontal (q=1), keeping its length and sense.
+func axisAligned(x, y float32, q int) (float32, float32) {
+	l := float32(math.Hypot(float64(x), float64(y)))
+	if q == 0 {
+		if y < 0 {
+			l = -l
+		}
+		return 0, l
+	}
+	if x < 0 {
+		l = -l
+	}
+	return l, 0
+}
+
 func vec(t *rapid.T, m float64, label string) (float32, float32) {
 	for {
 		a := rapid.Float64Range(0, 2*math.Pi).Draw(t, label+".ang")
@@ -461,9 +476,15 @@ func genCase(t *rapid.T) (Case, []string) {
 	case "linear":
 		x1, y1 := pt("x1"), pt("y1")
 		dx, dy := vec(t, m, "d")
+		if q := rapid.IntRange(0, 7).Draw(t, "axisaligned"); q < 2 {
+			dx, dy = axisAligned(dx, dy, q)
+		}
 		c.F = []ops.F32{ops.F32(x1), ops.F32(y1), ops.F32(x1 + dx), ops.F32(y1 + dy)}
 	case "circular":
 		rx, ry := vec(t, m, "r")
+		if q := rapid.IntRange(0, 7).Draw(t, "axisaligned"); q < 2 {
+			rx, ry = axisAligned(rx, ry, q)
+		}
 		c.F = []ops.F32{ops.F32(pt("cx")), ops.F32(pt("cy")), ops.F32(rx), ops.F32(ry)}
 	case "elliptical":
 		a1 := rapid.Float64Range(0, 2*math.Pi).Draw(t, "a1")
@@ -474,6 +495,22 @@ func genCase(t *rapid.T) (Case, []string) {
 		l1 := m * rapid.Float64Range(0.1, 1).Draw(t, "l1")
 		l2 := m * rapid.Float64Range(0.1, 1).Draw(t, "l2")
 		c.F = []ops.F32{ops.F32(pt("cx")), ops.F32(pt("cy")), ops.F32(float32(l1 * math.Cos(a1))), ops.F32(float32(l1 * math.Sin(a1))), ops.F32(float32(l2 * math.Cos(a1+da))), ops.F32(float32(l2 * math.Sin(a1+da)))}
+		if q := rapid.IntRange(0, 15).Draw(t, "axisaligned"); q < 8 {
+			// exactly axis-aligned axes, in either order and with either sign
+			r, s2 := float32(l1), float32(l2)
+			if q&1 != 0 {
+				r = -r
+			}
+			if q&2 != 0 {
+				s2 = -s2
+			}
+			if q&4 != 0 {
+				c.F[2], c.F[3], c.F[4], c.F[5] = 0, ops.F32(r), ops.F32(s2), 0
+			} else {
+				c.F[2], c.F[3], c.F[4], c.F[5] = ops.F32(r), 0, 0, ops.F32(s2)
+			}
+			labels = append(labels, "elliptical-axes-exactly-axis-aligned")
+		}
 	default:
 		c.Radial = rapid.Bool().Draw(t, "radial")
 		mm := gen.SimpleMatrix(t, "m")
